@@ -692,7 +692,7 @@ def roundtrip_check(env, spec, objs):
     if feats:
         shape = "+".join(feats)
     else:
-        shape = "cycle(" + ",".join(edge_roles(spec, cyc)) + ")" if cyclic else ("shared" if shared else "tree")
+        shape = "cycle(" + ",".join(sorted(set(spec[i][0] for i in cyc))) + ")" if cyclic else ("shared" if shared else "tree")
     try:
         sexp = env.jelly.jelly(objs[0], taster=policy)
         back = env.jelly.unjelly(sexp, taster=policy)
